@@ -20,6 +20,9 @@ ASSUMPTIONS = ['the printed geometry table is the reference for pulse numbers (s
 TAGSETS = [None, (1, 2, 3), (2, 3, 1), (3, 1, 2), (7, 3, None)]
 
 
+RULE = RULE + ' Two sources are also given with one in each addressing form, both orders.'
+
+
 def bounds(tier, seed):
     return dict(variant=geom.variant(seed), tagsets=[str(t) for t in TAGSETS], flips='2 patterns' if tier == 'quick' else 'all 8')
 
